@@ -12,6 +12,13 @@ type CfgAB struct {
 	B string `yaml:"b"`
 }
 
+// CfgABV is the struct type of "prefixStructV" fields: validated through its own field tags
+// when the configuration field carries a bare `validate` argument.
+type CfgABV struct {
+	A int    `yaml:"a" validate:"min=3"`
+	B string `yaml:"b"`
+}
+
 // SimLoader is a simulated configuration source.
 type SimLoader struct {
 	H    *Handle
